@@ -38,6 +38,15 @@ def stepLogin (st : Store) (ws : List String) : Option (Store × String) :=
       match parseHex u, parseHex o, parseHex n, num.toNat?, k.toNat?, wantOK w with
       | some u, some o, some n, some num, some _, true => let (s, r) := step st (.chpw u o n num); some (s, showOut r)
       | _, _, _, _, _, _ => some (st, "bad-op")
+  | ["race", u, hA, a, b, num, k, t] =>
+      -- a login in flight never writes the hash: the outcome is that of `sethash u hA; chpw u a b num`
+      match parseHex u, parseHex hA, parseHex a, parseHex b, num.toNat?, k.toNat?, t.toNat? with
+      | some u, some hA, some a, some b, some num, some _, some _ =>
+          let (s1, o1) := step st (.sethash u hA)
+          if o1 != Out.ok then some (s1, "refused") else
+          let (s2, r) := step s1 (.chpw u a b num)
+          some (s2, showOut r)
+      | _, _, _, _, _, _, _ => some (st, "bad-op")
   | ["stored", u] => match parseHex u with
       | some u => let (s, o) := step st (.stored u); some (s, showOut o)
       | none => some (st, "bad-op")
